@@ -1211,7 +1211,17 @@ class PyExec:
         for s in stmts:
             nxt = []
             for cur in live:
-                for o in self.exec_stmt(cur, s):
+                # a statement outside the subset is acceptable iff no state reaches it (same rule as guarded_block, so that
+                # `if A: return .. elif B: <unmodelled>` and `if A: return ..` + `if B: <unmodelled>` are treated alike)
+                n_obl = len(self.obligations)
+                probe = cur.copy()
+                try:
+                    res = self.exec_stmt(cur, s)
+                except OutOfSubset as e:
+                    del self.obligations[n_obl:]
+                    self.oblige(probe, "subset", "branch_with_unmodelled_construct_is_unreachable", False, s, note="statement contains: %s" % e)
+                    continue
+                for o in res:
                     if o[0] == "normal":
                         nxt.append(o[1])
                     else:
